@@ -22,6 +22,7 @@
 #
 from __future__ import annotations
 
+import copy
 import json
 import logging
 from collections.abc import Iterable
@@ -378,6 +379,14 @@ class SourceMapBuilder:
     def add_opcode(self, op_offset: int, line_number: int, column: int) -> SourceMapBuilder:
         self._mappings[op_offset] = SourceMapping(line_number, column)
         # logger.debug("<%d>: Adding opcode: %d -> %d, %d", id(self), op_offset, line_number, column)
+        return self
+
+    def copy_opcode(self, op_offset: int, new_op_offset: int) -> SourceMapBuilder:
+        """Map an additional opcode to the same source position (and macro context) as an already added one."""
+        if op_offset in self._mappings:
+            self._mappings[new_op_offset] = copy.copy(self._mappings[op_offset])
+        if op_offset in self._mappings_macros:
+            self._mappings_macros[new_op_offset] = copy.copy(self._mappings_macros[op_offset])
         return self
 
     def add_position_mark(self, position_mark: SourceMapPositionMark) -> SourceMapBuilder:
